@@ -25,8 +25,10 @@ Lit(n) == [e |-> ToString(n), kind |-> "lit", col |-> "", contr |-> "", lit |-> 
 V(tag) == IF KindOf(tag) = "cat" THEN Cat("v") ELSE Num("v")
 W == Num("w")
 I1 == <<Lit(1)>>
-Formulas(tag) == << <<I1, <<V(tag)>>>>, <<<<V(tag)>>>>, <<I1, <<V(tag)>>, <<W>>>>, <<<<V(tag), W>>>>, <<I1, <<W>>, <<W, V(tag)>>>> >>
-FormulaText == << "v", "0 + v", "v + w", "0 + v:w", "w + w:v" >>
+\* formula 6 codes the column under test TWICE within one materialization (reduced for `v`, in full for `v:w`): the second coding
+\* finds the levels already recorded, and its indicator columns must line up with the rows of the first (and with `w`)
+Formulas(tag) == << <<I1, <<V(tag)>>>>, <<<<V(tag)>>>>, <<I1, <<V(tag)>>, <<W>>>>, <<<<V(tag), W>>>>, <<I1, <<W>>, <<W, V(tag)>>>>, <<I1, <<V(tag)>>, <<V(tag), W>>>> >>
+FormulaText == << "v", "0 + v", "v + w", "0 + v:w", "w + w:v", "v + v:w" >>
 
 \* data: text/categorical values are given unsorted, the declared order of a categorical dtype is NOT the sorted one;
 \* numeric values are small non-negative integers (bool: 0/1)
@@ -55,12 +57,24 @@ AllNumeric == \A r \in DOMAIN M!Cells(B0, Len(KeptRows)) : \A j \in DOMAIN M!Cel
 \* a text/categorical column never appears as a raw column: it contributes one indicator per (non-reference) level
 DummyCoded == KindOf(tag) = "cat" => \A j \in DOMAIN M!Names(B0) : M!Names(B0)[j] # "v"
 
+\* "all data frames" includes the frame a fitted specification is applied to afterwards: the rows SliceFrom..n of the same frame
+\* (a tail slice: same dtype, every text level still observed, the null row inside it, row labels that no longer start at 0).
+\* The levels are the recorded ones (LevelsUsed) and the column structure is the recorded one; the cells are again indicators.
+SliceFrom == 2
+KeptSlice == SelectSeq(KeptRows, LAMBDA i : i >= SliceFrom)
+B1 == M!BuildOn(Fr, Form, [full_rank |-> fullrank, na |-> "drop", cluster |-> FALSE], KeptSlice, M!LevelsUsed(Fr, Form, KeptRows), B0.scoped)
+ReuseNumeric == /\ \A r \in DOMAIN M!Cells(B1, Len(KeptSlice)) : \A j \in DOMAIN M!Cells(B1, Len(KeptSlice))[r] : M!Cells(B1, Len(KeptSlice))[r][j] \in Int
+                /\ M!Names(B1) = M!Names(B0)                                               \* same columns, in the same order
+                /\ \A r \in DOMAIN KeptSlice : \E q \in DOMAIN KeptRows :                   \* and a row is coded as it was the first time
+                       KeptRows[q] = KeptSlice[r] /\ M!Cells(B1, Len(KeptSlice))[r] = M!Cells(B0, Len(KeptRows))[q]
+
 Out == IOEnv.OUT_FILE
 EmitCase == Emit => CSVWrite("%1$s", <<ToJson([tag |-> tag, kind |-> KindOf(tag), declared |-> Declared(tag), formula |-> FormulaText[fid],
       nulls |-> SetToSortSeq(nulls, <), full_rank |-> fullrank, vset |-> vset, kept |-> KeptRows,
       catvals |-> CatVals, declared_levels |-> DeclaredLv, numvals |-> NumVals(tag), wvals |-> WVals,
-      names |-> M!Names(B0), cells |-> M!Cells(B0, Len(KeptRows))])>>, Out)
-Init == tag \in Tags /\ fid \in 1..5 /\ nulls \in {{}, {2}} /\ fullrank \in BOOLEAN /\ vset \in (IF KindOf(tag) = "cat" THEN {"plain", "falsy"} ELSE {"plain"})
+      names |-> M!Names(B0), cells |-> M!Cells(B0, Len(KeptRows)),
+      reuse_from |-> SliceFrom, reuse_names |-> M!Names(B1), reuse_cells |-> M!Cells(B1, Len(KeptSlice))])>>, Out)
+Init == tag \in Tags /\ fid \in 1..6 /\ nulls \in {{}, {2}} /\ fullrank \in BOOLEAN /\ vset \in (IF KindOf(tag) = "cat" THEN {"plain", "falsy"} ELSE {"plain"})
 Next == UNCHANGED vars
 Spec == Init /\ [][Next]_vars
 =============================================================================
